@@ -30,6 +30,14 @@ CHECKS = {
    text="Coq theorems over ALL token sequences, on the table regenerated from parsing_table.go: the embedded table passes a proved static safety check (known-suffix analysis); hence for every accepted input the callback log is exactly the post-order of THE parse tree (tokens in source order, productions as a rightmost derivation in reverse), the tree applies one grammar production per interior node and has the tokens as leaves; a failing callback cuts the log at that call and its error is returned (for every callback predicate); ParseAndEvaluate's value stack is the tree-fold image of the node stack (arguments left to right, head position = first body symbol's). The three Go loops are tied to the model by replaying generated token streams (real scanner output, mutations, lexical-error endings, random sequences) and by injecting a failure at every callback of short streams.",
    note=TB + "The driver loops are modelled by hand (Cfg/LR.v); the translated table is additionally executed against ACTION/GOTO on every (state, symbol) pair. The known-suffix annotation is computed by the harness and CHECKED by the kernel (safe_check), not trusted.",
    tech="Coq proof: LR safety check + soundness/post-order/abort/plumbing theorems on the regenerated table; differential correspondence with failure injection"),
+ "C04": dict(cat="proof",
+   text="Kernel-checked, completely enumerated: the embedded ACTION/GOTO tables (regenerated from parsing_table.go on every run) are, entry for entry and with no extra entries, the LALR(1) tables of the embedded grammar and precedence levels as defined independently in Coq (Cfg/Lalr.v: LR(0) automaton, LALR(1) look-aheads, documented resolution rule), modulo renumbering of states, with no unresolved entry. Coq theorem over ALL token sequences: every accepted sequence is a sentence (tree with the tokens as leaves, one production per node). Byte-for-byte regeneration is re-run on a scratch copy. PARTIAL: completeness with the documented disambiguation is decided per explored sequence by an exact Earley recogniser of the documented grammar (docs block parsed, not re-typed) and an independent recursive-descent builder of the dictated tree; it is not yet a Coq theorem.",
+   note=TB + "Cfg/Lalr.v is an executable definition (unproved) of LALR(1) + the documented resolution rule; the driver loop is the C18 model. The Earley oracle and the dictated-tree builder are Python (correspondence only).",
+   tech="Coq: independent LALR(1) definition evaluated by vm_compute + table isomorphism; lr_sound; differential completeness/disambiguation test"),
+ "C20": dict(cat="proof",
+   text="Coq theorems over ALL token sequences on the regenerated table: nothing after the offending token influences the error index or the callbacks before it; every token before the reported one had been shifted in source order; a premature end is reported at the end marker (no position). Lexical error positions follow from C05's scanner_stream (error at the START of the first unclassifiable lexeme, including unterminated strings, patterns and comments), instantiated by kernel-evaluated examples. PARTIAL: 'the prefix is viable and the reported token admits no continuation' is decided per explored case by an exact Earley oracle for the documented grammar (every single-token insertion/deletion/replacement/truncation at every position; stray/unterminated elements at every gap of texts), not by a Coq theorem.",
+   note=TB + "Driver model as in C18; scanner model as in C05. The Earley oracle is Python.",
+   tech="Coq proof (suffix independence, shifted-prefix) + exact Earley oracle per case"),
 }
 
 ORDER = sorted(CHECKS)
